@@ -146,7 +146,7 @@ fn rank_compress(s: &Scenario) -> Option<Scenario> {
             continue;
         }
         let v = num_of_raw(ty, *r);
-        let rank = vals.iter().position(|x| x.num_eq(v))? as i128;
+        let rank = vals.binary_search_by(|x| cmp(x, &v)).ok()? as i128;
         *r = ty.raw_of_int(rank);
     }
     if t.data == s.data {
@@ -354,7 +354,24 @@ fn hist_candidates(h: &HistScenario) -> Vec<HistScenario> {
         out.push(rebuild(obs[..n / 2].to_vec(), h.forms.iter().copied().take(n / 2).collect(), h.edges.clone()));
         out.push(rebuild(obs[n / 2..].to_vec(), h.forms.iter().copied().skip(n / 2).collect(), h.edges.clone()));
     }
-    for k in 0..n {
+    // chunks first (ddmin style), single observations only for short histories
+    let mut chunk = n / 4;
+    while chunk >= 2 && n > 8 {
+        let mut startk = 0;
+        while startk < n {
+            let endk = (startk + chunk).min(n);
+            let mut o = obs.clone();
+            o.drain(startk..endk);
+            let mut f = h.forms.clone();
+            if endk <= f.len() {
+                f.drain(startk..endk);
+            }
+            out.push(rebuild(o, f, h.edges.clone()));
+            startk = endk;
+        }
+        chunk /= 4;
+    }
+    for k in 0..(if n <= 64 { n } else { 0 }) {
         let mut o = obs.clone();
         o.remove(k);
         let mut f = h.forms.clone();
